@@ -458,6 +458,17 @@ class Run:
             return None
         self.pending[int(t[1])] = t[2:]
         self.n_steps["select"] += 1
+        # the model's CSelect: admissible on the current version AND not overlapping any ongoing one
+        lo, up, fk, lk, inputs = int(t[2]), int(t[3]), unhx(t[4]), unhx(t[5]), t[7].split(",")
+        for n in inputs:
+            if n not in self.cache:
+                self.dump()              # a file we have not read yet (cannot happen: every step dumps)
+        m = self.model.cmd("S %d %d %s %s %s" % (lo, up, hx(fk), hx(lk), ",".join(str(self.fid(n)) for n in inputs))).split(" ")
+        if m[1] != "1":
+            self.problem("invalid", what="the selector chose a compaction that is not admissible on the current version (at selection time)", c=out)
+        if m[2] != "1":
+            self.problem("invalid", what="the selector chose a compaction that overlaps an ongoing one (level range and key range): conflict exclusion failed",
+                         c=out, ongoing=[" ".join(v[:4]) for k, v in sorted(self.pending.items()) if k != int(t[1])])
         return int(t[1])
 
     def perform(self, idx):
@@ -466,18 +477,22 @@ class Run:
         at this point, on its current version"""
         if self.dead or idx not in self.pending:
             return False
+        pos = sorted(self.pending).index(idx)     # its position in the model's pending list (selection order, removals keep order)
         desc = self.pending.pop(idx)
         out = self.sess.cmd("perform %d" % idx)[0]
         self.events.append(("perform", out + " | " + " ".join(desc[:2])))
         if out != "PERFORM ok":
             self.problem("error", what="a selected compaction returned an error or panicked when performed later", out=out, selected=" ".join(desc)[:200])
+            self.model.cmd("X %d" % pos)
             if not out.startswith("PERFORM"):
                 self.dead = True
             return False
         self.n_steps["deferred"] += 1
-        return self.applied(desc, out)
+        return self.applied(desc, out, pos=pos)
 
-    def applied(self, t, out):
+    def applied(self, t, out, pos=None):
+        """pos: None = selected and applied at once (model command C); else the position of this
+        compaction in the model's list of ongoing compactions (model command A: applied NOW)"""
         lo, up, fk, lk, size, inputs = int(t[0]), int(t[1]), unhx(t[2]), unhx(t[3]), int(t[4]), t[5].split(",")
         levels = self.dump()
         old_up = self.levels[up]
@@ -487,8 +502,11 @@ class Run:
         n_out = len(new_up) - (len(old_up) - (ub - lb)) if lb <= ub else 0
         outs = new_up[lb:lb + max(0, n_out)]
         self.check_meta(outs)
-        m = self.model.cmd("C %d %d %s %s %s | %s" % (lo, up, hx(fk), hx(lk), ",".join(str(self.fid(n)) for n in inputs),
-                                                    ";".join(file_str(self.fid(n), self.meta[n]["size"], self.cache[n]) for n in outs)))
+        outs_s = ";".join(file_str(self.fid(n), self.meta[n]["size"], self.cache[n]) for n in outs)
+        if pos is None:
+            m = self.model.cmd("C %d %d %s %s %s | %s" % (lo, up, hx(fk), hx(lk), ",".join(str(self.fid(n)) for n in inputs), outs_s))
+        else:
+            m = self.model.cmd("A %d | %s" % (pos, outs_s))
         bits = m.split(" ")[1:]
         is_gc = bits[5] == "1"          # the model classified the step as a garbage collection
         kind = "move" if len(inputs) == 1 else ("gc" if is_gc else "compact")
@@ -505,6 +523,14 @@ class Run:
             self.problem("invalid", what="levels not well-formed after compaction", c=out)
         elif bits[0] == "1" and bits[6] != "1" and (is_gc and bits[4] == "1" or (not is_gc) and bits[1] == "1"):
             self.problem("corr", what="step not accepted by the model although its parts are", bits=bits)
+        # the concurrent model's verdict (ModelConcurrent.cacceptedb): for an atomic step, also no overlap with
+        # the ongoing compactions and no id clash with their inputs; for a deferred apply, outputs judged
+        # against the entries read at selection time, which must be what the current version holds
+        if len(bits) > 7 and bits[7] != "1" and bits[0] == "1" and bits[6] == "1":
+            self.problem("invalid", what="step accepted on its own but not beside the ongoing compactions (overlaps one of them, or adds a file carrying the id of one of their inputs)" if pos is None
+                         else "deferred apply not accepted by the concurrent model although admissible on the current version", bits=bits, c=out)
+        if pos is not None and len(bits) > 8 and bits[8] != "1":
+            self.problem("invalid", what="the entries under the input ids changed between selection and apply", c=out)
         self.levels = levels
         self.compare_version(levels, "compaction")
         return True
